@@ -16,6 +16,7 @@ pub mod p_parse;
 pub mod t_misc;
 pub mod x_ids;
 pub mod g_serial;
+pub mod h_html;
 
 pub type Harness = fn();
 pub fn registry() -> Vec<(&'static str, Harness)> {
@@ -33,5 +34,6 @@ pub fn registry() -> Vec<(&'static str, Harness)> {
     t_misc::register(&mut v);
     x_ids::register(&mut v);
     g_serial::register(&mut v);
+    h_html::register(&mut v);
     v
 }
